@@ -248,7 +248,7 @@ static void groupNum2(int part, int parts) {
     if (div < 0 && builtinDiv(k)) continue;
     if ((idx++ % parts) != part) continue;
     Def* d = makeDef(k, 0, div, 0);
-    for (int f : fmts()) if (f == 0 || div == 0) standard(*d, f, g_thorough, !(f == 0 && (div == 0 || div == 10)));
+    for (int f : fmts()) if (f == 0 || div == 0) standard(*d, f, g_thorough && f == 0, !(f == 0 && (div == 0 || div == 10)));
   }
 }
 static void groupNum34() {
@@ -317,26 +317,27 @@ static void groupDates() {
           fn(b);
         }
       });
-      // invalid and boundary patterns
+      // invalid and boundary patterns (JSON: only the core block)
       if (f == 0 || g_thorough) family(*d, f, "bnd", [&](const PatFn& fn) {
         static const uint8_t YY[] = {0x04, 0xff, 0x64, 0x00, 0x24, 0x63, 0x99, 0x9a, 0xa0, 0xfe};
         int ny = g_thorough ? 10 : 3;
         for (int dd = 0; dd < 256; dd++) for (int m = 0; m < 256; m++) {
           bool core = (dd <= 0x32 || dd >= 0xfe) && (m <= 0x13 || m >= 0xfe);
           if (!core) {
+            if (f != 0) continue;
             if (!g_thorough && (dd * 31 + m * 7) % 64 != 0) continue;
             if (g_thorough && dup && (dd + m) % 4 != 0) continue;
           }
           for (int yi = 0; yi < ny; yi++) {
-            if (!core && !g_thorough && yi != (dd + m) % 3) continue;
+            if (!core && yi != (dd + m) % 3) continue;
             Bytes b{(uint8_t)dd, (uint8_t)m};
             if (four) b.push_back((uint8_t)g_rng->below(9));
             b.push_back(YY[yi]);
             fn(b);
           }
         }
-        for (int yy = 0; yy < 256; yy++) for (int i = 0; i < NBND; i++) for (int j = 0; j < NBND; j++) {
-          if (!g_thorough && (i * NBND + j + yy) % 53 != 0) continue;
+        if (f == 0) for (int yy = 0; yy < 256; yy++) for (int i = 0; i < NBND; i++) for (int j = 0; j < NBND; j++) {
+          if ((i * NBND + j + yy) % (g_thorough ? 4 : 53) != 0) continue;
           Bytes b{BND[i], BND[j]};
           if (four) b.push_back((uint8_t)g_rng->below(256));
           b.push_back((uint8_t)yy);
@@ -373,7 +374,7 @@ static void groupTimes() {
   for (const char* k : {"BTM", "HTM", "VTM", "MIN"}) {
     Def* d = makeDef(k, 0, 0, 0);
     for (int f : fmts()) {
-      if (g_thorough) family(*d, f, "all16", all16);
+      if (g_thorough && f == 0) family(*d, f, "all16", all16);
       else if (string(k) == "MIN") family(*d, f, "min", [&](const PatFn& fn) {
         for (int v = 0; v <= 1500; v++) fn(Bytes{(uint8_t)(v & 0xff), (uint8_t)(v >> 8)});
         sample16(fn);
@@ -386,9 +387,10 @@ static void groupTimes() {
     bool isBcd = k[0] == 'B', rev = k[0] != 'H';
     for (int f : fmts()) {
       if (f == 1 && !g_thorough) continue;
-      family(*d, f, g_thorough ? "alltimes" : "times", [&](const PatFn& fn) {
+      bool allTimes = g_thorough && f == 0;
+      family(*d, f, allTimes ? "alltimes" : "times", [&](const PatFn& fn) {
         for (int h = 0; h <= 24; h++) for (int m = 0; m < 60; m++) for (int s = 0; s < 60; s++) {
-          if (!g_thorough && !(g_rng->below(30) == 0 || (m % 59 == 0 && s % 59 == 0))) continue;
+          if (!allTimes && !(g_rng->below(30) == 0 || (m % 59 == 0 && s % 59 == 0))) continue;
           Bytes b{(uint8_t)(isBcd ? bcd(h) : h), (uint8_t)(isBcd ? bcd(m) : m), (uint8_t)(isBcd ? bcd(s) : s)};
           if (rev) std::reverse(b.begin(), b.end());
           fn(b);
@@ -396,8 +398,8 @@ static void groupTimes() {
       });
       family(*d, f, "bnd", [&](const PatFn& fn) {
         for (int i = 0; i < NBND; i++) for (int j = 0; j < NBND; j++) for (int l = 0; l < NBND; l++)
-          if (g_thorough || (i + j * 5 + l * 3) % 8 == 0) fn(Bytes{BND[i], BND[j], BND[l]});
-        wide(3, g_thorough ? 20000 : 1000, false, fn);
+          if ((g_thorough && f == 0) || (i + j * 5 + l * 3) % 8 == 0) fn(Bytes{BND[i], BND[j], BND[l]});
+        wide(3, g_thorough && f == 0 ? 20000 : 1000, false, fn);
       });
     }
   }
@@ -436,7 +438,7 @@ static void groupStrings() {
 static void groupTem() {
   for (bool master : {true, false}) {
     Def* d = makeDef("TEM_P", 0, 0, 0, master);
-    for (int f : fmts()) standard(*d, f, g_thorough);
+    for (int f : fmts()) standard(*d, f, g_thorough && f == 0);
   }
 }
 
